@@ -11,8 +11,8 @@
 (*              ply.ReadHeader (hdr), ply.ReadMesh (rd, mesh)              *)
 (*        file: reference encoder -> bytes -> the same three observations  *)
 (* State: the current case and the decoded mesh of its first encoding.     *)
-(* Each rejected line is printed as JSON {"l","id","bad":[{"p","why"}],    *)
-(* "cls"}: violated predicates, what differs, class of the case.           *)
+(* Each rejected line is printed as JSON {"l","id","bad":[{"p","why",      *)
+(* "cls"}]}: violated predicate, what differs, class of known deviation.   *)
 (***************************************************************************)
 EXTENDS PlyFormat, Json
 
@@ -26,10 +26,10 @@ NoMesh == [topo |-> "NULL", idx |-> <<>>, attrs |-> <<>>, exact |-> TRUE]
 
 Init == l = 1 /\ cur = NoCase /\ first = NoMesh
 
-\* bad: set of [p |-> predicate name, why |-> set of strings]
-Report(ln, bad, cls) ==
+\* bad: set of [p |-> predicate name, why |-> set of strings, cls |-> set of classes of known deviation / "-"]
+Report(ln, bad) ==
     IF bad = {} THEN TRUE
-    ELSE PrintT(ToJson([l |-> l, id |-> ln.id, bad |-> bad, cls |-> cls]))
+    ELSE PrintT(ToJson([l |-> l, id |-> ln.id, bad |-> bad]))
 
 (***************************************************************************)
 (* a case starts                                                           *)
@@ -47,7 +47,7 @@ CaseBad(ln) ==
 
 CaseStep ==
     /\ l <= Len(Trace) /\ Trace[l].k = "case"
-    /\ Report(Trace[l], {[p |-> x, why |-> {}] : x \in CaseBad(Trace[l])}, "-")
+    /\ Report(Trace[l], {[p |-> x, why |-> {}, cls |-> {}] : x \in CaseBad(Trace[l])})
     /\ cur' = Trace[l]
     /\ first' = NoMesh
     /\ l' = l + 1
@@ -69,12 +69,28 @@ HeaderAgrees(h, f) ==      \* what ply.ReadHeader returned against the header in
                 LET p == h.elems[2].props[i] IN
                 p.list /\ p.n = f.flists[i].n /\ p.ct = Canon(f.flists[i].ct) /\ p.lt = Canon(f.flists[i].lt)
 
-B(p, why) == [p |-> p, why |-> why]
+B(p, why, cls) == [p |-> p, why |-> why, cls |-> cls]
 
-\* attribute names on which two projected meshes differ ("shape": topology or index list)
-ProjDiff(a, b) ==
-    (IF a.topo # b.topo \/ a.idx # b.idx THEN {"shape"} ELSE {})
-    \cup {x.n : x \in (Range(a.attrs) \ Range(b.attrs)) \cup (Range(b.attrs) \ Range(a.attrs))}
+(***************************************************************************)
+(* Classes of KNOWN deviations.  Every name in a rejection's `why` is put  *)
+(* into a class only if that class explains it exactly, "-" otherwise; the *)
+(* checker treats a rejection as known only if no "-" remains.             *)
+(***************************************************************************)
+RawCls == "ascii-uchar-scalar-raw"      \* the ascii reader leaves single 8-bit scalars unnormalised (pinned by a test)
+
+\* the scalar attribute n of observed mesh m is exactly file f's 8-bit column left raw (0..255)
+RawAttr(m, f, n) ==
+    LET dr == DenoteV(f, cur.mode, cur.D, TRUE)
+        key == <<n, 1>>
+    IN /\ cur.mode = "lat" /\ n \in UCharScalarAttrs(f)
+       /\ key \in AttrKeys(dr) /\ key \in AttrKeys(m)
+       /\ IF dr.hasuv THEN Len(m.idx) = Len(dr.idx) /\ CornerMatch(m, dr, key, cur.mode)
+          ELSE AttrMatch(m, dr, key, cur.mode)
+\* ... while in mesh m it is what f describes
+GoodAttr(m, d, n) ==
+    LET key == <<n, 1>> IN
+    /\ key \in AttrKeys(d) /\ key \in AttrKeys(m)
+    /\ IF d.hasuv THEN Len(m.idx) = Len(d.idx) /\ CornerMatch(m, d, key, cur.mode) ELSE AttrMatch(m, d, key, cur.mode)
 
 RtBad(ln) ==
     LET src == MeshOf(cur.src)
@@ -86,23 +102,33 @@ RtBad(ln) ==
         exact == cur.mode = "lat" => ln.mesh.exact
         rdok == ln.rd = "OK"
         rdwhy == IF rdok THEN {"inexact"} ELSE {"read-" \o ln.rd}
-    IN  (IF ln.wr # "OK" THEN {B("C04.WriteOk", {ln.wr})} ELSE {})
-        \cup (IF ln.wr = "OK" /\ ~wf THEN {B("C04.WellFormedFile", {IF f.ok THEN "layout" ELSE f.err})} ELSE {})
-        \cup (IF ln.wr = "OK" /\ f.ok /\ f.fmt # ln.fmt THEN {B("C04.FormatWritten", {f.fmt})} ELSE {})
-        \cup (IF wf /\ ~(RoundTrip(src, d, o, cur.mode, cur.D) /\ (cur.mode = "lat" => f.exact))
-              THEN {B("C04.FileDenotes", RoundTripDiff(src, d, o, cur.mode, cur.D)
-                                         \cup (IF cur.mode = "lat" /\ ~f.exact THEN {"inexact"} ELSE {}))} ELSE {})
-        \cup (IF ln.wr = "OK" /\ f.ok /\ ~HeaderAgrees(ln.hdr, f) THEN {B("C04.ReadHeader", {})} ELSE {})
-        \cup (IF ln.wr = "OK" /\ f.ok /\ ln.hdr.ok /\ ln.hdr.fmt # f.fmt THEN {B("C04.HeaderFormat", {ln.hdr.fmt})} ELSE {})
-        \cup (IF wf /\ ~(rdok /\ exact /\ SameMesh(res, d))
-              THEN {B("C04.ReadsFile", IF rdok /\ exact THEN MeshDiff(res, d) ELSE rdwhy)} ELSE {})
+        fileok == wf /\ RoundTrip(src, d, o, cur.mode, cur.D) /\ (cur.mode = "lat" => f.exact)
+        ascii == ln.fmt = "ascii"
+    IN  (IF ln.wr # "OK" THEN {B("C04.WriteOk", {ln.wr}, {})} ELSE {})
+        \cup (IF ln.wr = "OK" /\ ~wf THEN {B("C04.WellFormedFile", {IF f.ok THEN "layout" ELSE f.err}, {})} ELSE {})
+        \cup (IF ln.wr = "OK" /\ f.ok /\ f.fmt # ln.fmt THEN {B("C04.FormatWritten", {f.fmt}, {})} ELSE {})
+        \cup (IF wf /\ ~fileok
+              THEN LET diff == RoundTripDiff(src, d, o, cur.mode, cur.D)
+                               \cup (IF cur.mode = "lat" /\ ~f.exact THEN {"inexact"} ELSE {})
+                   IN {B("C04.FileDenotes", diff, {})} ELSE {})
+        \cup (IF ln.wr = "OK" /\ f.ok /\ ~HeaderAgrees(ln.hdr, f) THEN {B("C04.ReadHeader", {}, {})} ELSE {})
+        \cup (IF ln.wr = "OK" /\ f.ok /\ ln.hdr.ok /\ ln.hdr.fmt # f.fmt
+              THEN {B("C04.HeaderFormat", {ln.hdr.fmt}, {})} ELSE {})
+        \cup (IF wf /\ ~(rdok /\ exact /\ SameMesh(res, d, cur.mode))
+              THEN LET diff == IF rdok /\ exact THEN MeshDiff(res, d, cur.mode) ELSE rdwhy
+                   IN {B("C04.ReadsFile", diff,
+                         {IF rdok /\ exact /\ ascii /\ RawAttr(res, f, n) THEN RawCls ELSE "-" : n \in diff})} ELSE {})
         \cup (IF ln.wr = "OK" /\ ~(rdok /\ exact /\ RoundTrip(src, res, o, cur.mode, cur.D))
-              THEN {B("C04.RoundTrip", IF rdok /\ exact THEN RoundTripDiff(src, res, o, cur.mode, cur.D) ELSE rdwhy)}
+              THEN LET diff == IF rdok /\ exact THEN RoundTripDiff(src, res, o, cur.mode, cur.D) ELSE rdwhy
+                   IN {B("C04.RoundTrip", diff,
+                         {IF rdok /\ exact /\ ascii /\ wf /\ RawAttr(res, f, n) /\ KeptOK(src, d, o, <<n, 1>>, cur.mode, cur.D)
+                          THEN RawCls ELSE "-" : n \in diff})}
               ELSE {})
-        \cup (IF rdok /\ first.topo # "NULL" /\ ProjDiff(ln.mesh, first) # {}
-              THEN {B("C04.EncodingsAgree", ProjDiff(ln.mesh, first))} ELSE {})
-
-RtCls(ln) == IF PointTexCoordUnclaimed(MeshOf(cur.src), cur.opts) THEN "point-texcoord-unclaimed" ELSE "-"
+        \cup (IF rdok /\ first.topo # "NULL" /\ ProjDiff(ln.mesh, first, cur.mode) # {}
+              THEN LET diff == ProjDiff(ln.mesh, first, cur.mode)
+                   IN {B("C04.EncodingsAgree", diff,
+                         {IF wf /\ exact /\ RawAttr(MeshOf(first), f, n) /\ GoodAttr(res, d, n) THEN RawCls ELSE "-" : n \in diff})}
+              ELSE {})
 
 (***************************************************************************)
 (* C08: one encoding of a third-party file                                 *)
@@ -116,22 +142,25 @@ FileBad(ln) ==
         d == Denote(s, cur.mode, cur.D)
         res == MeshOf(ln.mesh)
         exact == cur.mode = "lat" => ln.mesh.exact
+        mixed == MixedGroup(s)             \* documented as unsupported by the reader: a class of its own
     IN  (IF ~(ln.wr = "REF" /\ ln.file.ok /\ ln.file.fmt = ln.fmt /\ WellFormedFile(ln.file, cur.mode)
               /\ SameContent(ln.file, s) /\ (cur.mode = "lat" => ln.file.exact))
-         THEN {B("Harness.Refenc", {})} ELSE {})
-        \cup (IF ln.rd # "OK" THEN {B("C08.Loads", {ln.rd})} ELSE {})
-        \cup (IF ln.rd = "OK" /\ ~(exact /\ WellFormedMesh(res) /\ SameMesh(res, d))
-              THEN {B("C08.Denote", IF ~exact THEN {"inexact"} ELSE IF ~WellFormedMesh(res) THEN {"malformed"}
-                                    ELSE MeshDiff(res, d))} ELSE {})
-
-FileCls(ln) == IF MixedGroup(cur.spec) THEN "mixed-type-group" ELSE "-"
+         THEN {B("Harness.Refenc", {}, {})} ELSE {})
+        \cup (IF ln.rd # "OK" THEN {B("C08.Loads", {ln.rd}, IF mixed THEN {"mixed-type-group"} ELSE {})} ELSE {})
+        \cup (IF ln.rd = "OK" /\ ~(exact /\ WellFormedMesh(res) /\ SameMesh(res, d, cur.mode))
+              THEN LET diff == IF ~exact THEN {"inexact"} ELSE IF ~WellFormedMesh(res) THEN {"malformed"}
+                               ELSE MeshDiff(res, d, cur.mode)
+                   IN {B("C08.Denote", diff,
+                         IF mixed THEN {"mixed-type-group"}
+                         ELSE {IF exact /\ ln.fmt = "ascii" /\ RawAttr(res, s, n) THEN RawCls ELSE "-" : n \in diff})}
+              ELSE {})
 
 EncStep ==
     /\ l <= Len(Trace) /\ Trace[l].k = "enc"
     /\ LET ln == Trace[l] IN
-       /\ IF cur.kind = "rt" THEN Report(ln, RtBad(ln), RtCls(ln))
-          ELSE IF cur.kind = "file" THEN Report(ln, FileBad(ln), FileCls(ln))
-          ELSE Report(ln, {[p |-> "Harness.NoCase", why |-> {}]}, "-")
+       /\ IF cur.kind = "rt" THEN Report(ln, RtBad(ln))
+          ELSE IF cur.kind = "file" THEN Report(ln, FileBad(ln))
+          ELSE Report(ln, {[p |-> "Harness.NoCase", why |-> {}, cls |-> {}]})
        /\ first' = IF first.topo = "NULL" /\ ln.rd = "OK" THEN ln.mesh ELSE first
     /\ UNCHANGED cur
     /\ l' = l + 1
